@@ -185,7 +185,8 @@ fn template_line(rng: &mut Rng, vocab: &[String]) -> String {
         }
     };
     let cs = |rng: &mut Rng| vocab[rng.below(vocab.len())].clone();
-    match rng.below(49) {
+    match rng.below(50) {
+        49 => hidden_name(rng),
         47 | 48 => deep_nesting(rng),
         41..=43 => wide_layout(rng),
         44..=46 => line_start(rng, vocab),
@@ -254,7 +255,11 @@ fn template_line(rng: &mut Rng, vocab: &[String]) -> String {
             "\\newInt\\xi \\let\\xk=\\xi \\xk=5 \\the\\xk ", "\\newInt~ ~=5 ", "{\\newIntArray\\xj 2 }\\xj 0=1 ", "\\newIntArray\\xj 2 \\the\\xj 5 ",
             "\\newIntArray\\xj 2 \\advance\\xj 1 by 3 \\the\\xj 1 ", "\\newIntArray\\xj 2 \\countdef\\xj=3 \\xj=1 ", "\\newIntArray\\count 2 \\count 1=3 ",
             "\\dumpFormat=0 \\dump ", "\\dumpFormat=1 \\dump \\dump ", "\\dumpFormat=2 \\dumpValidate=1 \\dump ", "{\\iftrue \\dumpValidate=1 \\dump ",
-        ][rng.below(19)]
+            // \\dump reached in the middle of things: late on a line, on a later line of a source,
+            // out of a macro or a token register, with pending input behind it
+            "abc def \\dump ghi", "x\ny \\dump z\nw", "\\toks0={\\dump}\\the\\toks0 ", "\\def\\xa{\\dump}\\xa\\xa ", "\\def\\xa#1{#1}\\xa{\\dumpValidate=1 \\dump}y",
+            "\\iftrue\\dump\\fi \\dumpFormat=1 \\dump", "\u{e9}\u{e9}\u{e9} \\dump \u{e9}", "\n\n\\dump", "\\expandafter\\dump\\jobname ",
+        ][rng.below(28)]
         .to_string(),
         38 => {
             // macro tracing with long and multi-byte arguments and expansions
@@ -293,6 +298,38 @@ fn template_line(rng: &mut Rng, vocab: &[String]) -> String {
             .to_string()
         }
     }
+}
+
+/// Installed commands whose names cannot be typed under the default category codes (they contain
+/// `_`, a NUL, ...): internal helpers that are "not meant to be invoked". After category-code
+/// changes that make every character of the name a letter they can be typed like any other name,
+/// so they are input too.
+fn hidden_name(rng: &mut Rng) -> String {
+    let mut names: Vec<String> = crate::state::sim_built_ins()
+        .keys()
+        .filter(|k| !k.chars().all(|c| c.is_ascii_alphabetic()))
+        .map(|k| k.to_string())
+        .collect();
+    names.sort();
+    if names.is_empty() {
+        return "\\relax ".to_string();
+    }
+    let name = &names[rng.below(names.len())];
+    let mut s = String::new();
+    let mut odd: Vec<char> = name.chars().filter(|c| !c.is_ascii_alphabetic()).collect();
+    odd.sort();
+    odd.dedup();
+    for c in &odd {
+        s.push_str(&format!("\\catcode{}=11 ", *c as u32));
+    }
+    let uses = [
+        "\\{n} ", "\\{n}=1 ", "\\the\\{n} ", "\\let\\xa=\\{n} \\xa=2 ", "\\advance\\{n} by 1 ", "\\{n} 0=1 ", "\\the\\{n} 0 ",
+        "\\global\\{n}=3 ", "\\count1=\\{n} ", "\\def\\{n}{{x}}\\{n} ", "\\expandafter\\{n}\\{n} ", "{{\\{n}=1 }}", "\\{n}",
+    ];
+    for _ in 0..1 + rng.below(2) {
+        s.push_str(&uses[rng.below(uses.len())].replace("{n}", name).replace("{{", "{").replace("}}", "}"));
+    }
+    s
 }
 
 /// Deep but finite nesting with an error at the bottom (or nothing closed at all): nested macro
